@@ -130,6 +130,7 @@ type c54h struct {
 	srv    *BfeServer
 	tr     *c54transport
 	probes []c54probe
+	dump   func(wire []byte) // replay mode: show what the client received
 }
 
 // c54newServer builds a real BfeServer with product "p" (host example.org), two clusters that
@@ -692,6 +693,9 @@ func (h *c54h) execute(reqs []*c54req, outcome func(string)) (vs []c54verdict, p
 	}
 
 	wire := conn.out
+	if h.dump != nil {
+		h.dump(wire)
+	}
 	cr := &c54countReader{b: wire}
 	br := bufio.NewReaderSize(cr, 4096)
 	consumed := func() int { return cr.pos - br.Buffered() }
@@ -815,18 +819,22 @@ func (h *c54h) execute(reqs []*c54req, outcome func(string)) (vs []c54verdict, p
 			continue
 		}
 		if resp.StatusCode == 204 || resp.StatusCode/100 == 1 {
-			// the client takes no body; whatever the module produced must not be on the wire
-			// (judged by the surplus-bytes check of the next iteration) and an empty body does
-			// not decompress to anything.
+			// The client takes no body after such a head. The module compressed nevertheless:
+			// there is no body that could decompress to anything, and whatever the filter
+			// produced and bfe wrote after the head reaches the client as surplus bytes.
 			_, derr := c54gunzip(body)
 			if enc == "br" {
 				_, derr = c54unbrotli(body)
 			}
+			next := len(wire)
+			if k := bytes.Index(wire[hdrEnd:], []byte("HTTP/1.")); k >= 0 {
+				next = hdrEnd + k
+			}
 			vs = append(vs, c54verdict{
-				sig:    fmt.Sprintf("body:status-%d:%s:bodiless-response-announced-as-compressed", resp.StatusCode, enc),
-				detail: fmt.Sprintf("status %d response was compressed: the client receives Content-Encoding %s and a %d-byte body (%v); wire after head: %s", resp.StatusCode, enc, len(body), derr, c54short(wire[hdrEnd:])),
+				sig:    fmt.Sprintf("body:status-%d:%s:bodiless-response-compressed", resp.StatusCode, enc),
+				detail: fmt.Sprintf("status %d response was compressed: the client receives Content-Encoding %s with a %d-byte body (%v) and %d surplus bytes after the head: %s", resp.StatusCode, enc, len(body), derr, next-hdrEnd, c54short(wire[hdrEnd:next])),
 			})
-			continue
+			break // what follows on this connection is out of sync; not judged further
 		}
 
 		// length clause
@@ -956,18 +964,27 @@ func TestVerifC54(t *testing.T) {
 	}
 	h := c54newServer(dir)
 	defer os.RemoveAll(dir)
+	thorough := r.Thorough()
+	if r.Replaying() {
+		h.dump = func(wire []byte) {
+			w := wire
+			if len(w) > 1500 {
+				w = w[:1500]
+			}
+			t.Logf("replay: %d bytes received by the client: %q", len(wire), w)
+		}
+	}
 
 	idx := 0
 	stop := false
 	famN := map[string]int{}
 	famT := map[string]time.Duration{}
+	famE := map[string]int{}
 	nPanics := int64(0)
 	runCase := func(family string, reqs []*c54req) {
-		if stop {
-			return
-		}
 		idx++
-		if !r.Mine(idx) {
+		famE[family[:1]]++
+		if stop || !r.Mine(idx) {
 			return
 		}
 		id := c54caseID(family, reqs)
@@ -979,9 +996,6 @@ func TestVerifC54(t *testing.T) {
 		vs, pan := h.execute(reqs, r.Outcome)
 		famN[family[:1]]++
 		famT[family[:1]] += time.Since(t0)
-		if os.Getenv("C54_DEBUG") != "" && idx%2000 < 8 {
-			fmt.Printf("c54 progress idx=%d %v %v\n", idx, famN, famT)
-		}
 		if pan != "" {
 			r.Outcome("panic")
 			nPanics++
@@ -1000,7 +1014,7 @@ func TestVerifC54(t *testing.T) {
 				r.Nontrivial(q.id())
 			}
 		}
-		if idx%512 == 0 && r.Expired("enumeration") {
+		if famN[family[:1]]%64 == 0 && r.Expired("enumeration (family "+family[:1]+")") {
 			stop = true
 		}
 	}
@@ -1013,237 +1027,7 @@ func TestVerifC54(t *testing.T) {
 	gz := c54rule{"GZIP", 6, 64}
 	bro := c54rule{"BROTLI", 5, 64}
 	none := c54rule{}
-
-	// ---- family A: negotiation — Accept-Encoding x rule x backend Content-Encoding x status x
-	//      method x client protocol x backend framing x cluster, small fixed bodies.
-	type stat struct {
-		status   int
-		framings []string
-	}
-	stats := []stat{
-		{200, []string{"cl", "chunked", "close"}},
-		{404, []string{"cl"}},
-		{206, []string{"chunked"}},
-		{204, []string{"none", "cl0"}},
-		{304, []string{"none", "clN"}},
-	}
-	protos := []string{"1.1", "1.0", "1.0ka"}
-	for _, ae := range c54aeAlphabet {
-		for _, ru := range []c54rule{gz, bro, none} {
-			for _, ce := range c54ceAlphabet {
-				for _, st := range stats {
-					for _, fm := range st.framings {
-						for _, method := range []string{"GET", "HEAD"} {
-							for _, proto := range protos {
-								for _, nobuf := range []bool{false, true} {
-									// thin the product a little: the full cross of CE x proto x cluster only for 200
-									if st.status != 200 && (nobuf || (ce != nil && len(ce) > 1)) {
-										continue
-									}
-									if !r.Thorough() && ce != nil && proto != "1.1" && st.status != 200 {
-										continue
-									}
-									for _, bk := range []struct {
-										id string
-										b  []byte
-									}{{"t100", text100}, {"z0", nil}} {
-										if bk.id == "z0" && (ce != nil || st.status != 200) {
-											continue
-										}
-										be := mkBackend(st.status, fm, 0, ce, bk.b, whole)
-										runCase("A", []*c54req{{method: method, proto: proto, ae: ae, rule: ru, nobuf: nobuf, bodyID: bk.id, backend: be}})
-									}
-								}
-							}
-						}
-					}
-				}
-			}
-		}
-	}
-
-	// ---- family B: body length x content x backend chunking x level x flush size.
 	both := []string{"gzip, br"}
-	contents := []byte{'z', 't', 'r', 'g'}
-	framings := []string{"cl", "chunked", "close", "h10"}
-	for _, ru := range c54allRules() {
-		f := ru.f
-		if !r.Thorough() {
-			// quick: every level at flush 64 and 4096; the other flush sizes at two levels each
-			if f != 64 && f != 4096 && !(ru.cmd == "GZIP" && (ru.q == -1 || ru.q == 0)) && !(ru.cmd == "BROTLI" && (ru.q == 0 || ru.q == 5)) {
-				continue
-			}
-		}
-		lens := []int{0, 1, 2, f - 1, f, f + 1, 2*f - 1, 2 * f, 2*f + 1, 3*f + 5}
-		if r.Thorough() {
-			lens = append(lens, 3, f/2, 3*f, 4*f+1, 8*f)
-		}
-		for _, n := range lens {
-			for _, kind := range contents {
-				if !r.Thorough() && kind == 'g' && n > f+1 {
-					continue
-				}
-				body := c54body(kind, n)
-				bodyID := fmt.Sprintf("%c%d", kind, n)
-				ks := []int{0, 1, f - 1, f, f + 1, 2*f + 1}
-				if n > 2*f+1 && f > 512 {
-					ks = []int{0, 7, f - 1, f, f + 1, 2*f + 1}
-				}
-				for _, k := range ks {
-					if k > n && k != 0 {
-						continue
-					}
-					for _, fm := range framings {
-						if !r.Thorough() && fm == "h10" {
-							continue
-						}
-						for _, eofWith := range []bool{false, true} {
-							if eofWith && fm == "chunked" && !r.Thorough() {
-								continue
-							}
-							for _, nobuf := range []bool{false, true} {
-								if nobuf && !r.Thorough() && (k != 0 && k != f) {
-									continue
-								}
-								fr := c54fragSpec{hdrSep: k != 0, k: k, eofWith: eofWith}
-								chunk := k
-								be := mkBackend(200, fm, chunk, nil, body, fr)
-								runCase("B", []*c54req{{method: "GET", proto: "1.1", ae: both, rule: ru, nobuf: nobuf, bodyID: bodyID, backend: be}})
-							}
-						}
-					}
-				}
-			}
-		}
-	}
-
-	// ---- family C: exhaustive small bodies over a 4-symbol alphabet x every composition of the
-	//      body into backend reads x EOF flavour (bodies are far below the flush size: the
-	//      single-flush / close-only paths).
-	maxLen := r.Pick(4, 6)
-	alpha := []byte{'a', 0x00, 0xff, '\n'}
-	var bodies [][]byte
-	var gen func(cur []byte)
-	gen = func(cur []byte) {
-		bodies = append(bodies, append([]byte(nil), cur...))
-		if len(cur) == maxLen {
-			return
-		}
-		for _, c := range alpha {
-			gen(append(cur, c))
-		}
-	}
-	gen(nil)
-	for _, body := range bodies {
-		n := len(body)
-		ncomp := 1
-		if n > 1 {
-			ncomp = 1 << uint(n-1)
-		}
-		for mask := 0; mask < ncomp; mask++ {
-			// only the all-'a' prefix family gets every composition of longer bodies in quick
-			if !r.Thorough() && n > 3 && mask != 0 && mask != ncomp-1 && bytes.Count(body, []byte{'a'}) != n {
-				continue
-			}
-			var sizes []int
-			run := 1
-			for i := 0; i < n-1; i++ {
-				if mask&(1<<uint(i)) != 0 {
-					sizes = append(sizes, run)
-					run = 1
-				} else {
-					run++
-				}
-			}
-			if sizes == nil {
-				sizes = []int{}
-			}
-			for _, ru := range []c54rule{{"GZIP", -1, 64}, {"BROTLI", 5, 64}} {
-				for _, fm := range []string{"cl", "close"} {
-					for _, eofWith := range []bool{false, true} {
-						fr := c54fragSpec{hdrSep: mask&1 == 0, sizes: sizes, eofWith: eofWith}
-						be := mkBackend(200, fm, 0, nil, body, fr)
-						runCase("C", []*c54req{{method: "GET", proto: "1.1", ae: both, rule: ru, bodyID: "x" + fmt.Sprintf("%x", body), backend: be}})
-					}
-				}
-			}
-		}
-	}
-
-	// ---- family S: every split of bodies around the flush size into two (thorough: three)
-	//      backend reads — the read that straddles a flush boundary.
-	for _, ru := range []c54rule{{"GZIP", 1, 64}, {"BROTLI", 1, 64}} {
-		for _, n := range []int{63, 64, 65, 127, 128, 129, 130} {
-			body := c54body('t', n)
-			for a := 1; a < n; a++ {
-				for b := 0; a+b < n; b++ {
-					if b > 0 && !r.Thorough() {
-						break
-					}
-					if b > 0 && (n == 127 || n == 129 || n == 130 || n == 63) {
-						break
-					}
-					sizes := []int{a}
-					if b > 0 {
-						sizes = []int{a, b}
-					}
-					for _, fm := range []string{"cl", "close"} {
-						fr := c54fragSpec{hdrSep: true, sizes: sizes, eofWith: a%2 == 0}
-						be := mkBackend(200, fm, 0, nil, body, fr)
-						runCase("S", []*c54req{{method: "GET", proto: "1.1", ae: both, rule: ru, bodyID: fmt.Sprintf("t%d", n), backend: be}})
-					}
-				}
-			}
-		}
-	}
-
-	// ---- family D: large bodies (70 000 bytes and around the 32 KiB copy buffer).
-	bigLens := []int{32767, 32768, 32769, 70000}
-	for _, ru := range c54allRules() {
-		if ru.f != 64 && ru.f != 4096 && ru.f != 4095 {
-			continue
-		}
-		if ru.f == 4095 && !r.Thorough() {
-			continue
-		}
-		if !r.Thorough() {
-			if ru.cmd == "GZIP" && ru.q != -2 && ru.q != -1 && ru.q != 0 && ru.q != 1 && ru.q != 9 {
-				continue
-			}
-			if ru.cmd == "BROTLI" && ru.q != 0 && ru.q != 4 && ru.q != 5 && ru.q != 9 && ru.q != 11 {
-				continue
-			}
-		}
-		for _, n := range bigLens {
-			if !r.Thorough() && n != 70000 && ru.f != 4096 {
-				continue
-			}
-			for _, kind := range []byte{'z', 't', 'r'} {
-				if ru.cmd == "BROTLI" && ru.q >= 10 && kind != 't' && !r.Thorough() {
-					continue
-				}
-				body := c54body(kind, n)
-				for _, k := range []int{0, 1000, 4096, 32769} {
-					if !r.Thorough() && (k == 1000 || k == 32769) && kind != 't' {
-						continue
-					}
-					for _, fm := range []string{"cl", "chunked", "close"} {
-						if !r.Thorough() && fm == "close" && kind != 't' {
-							continue
-						}
-						for _, nobuf := range []bool{false, true} {
-							if nobuf && !r.Thorough() && k != 4096 {
-								continue
-							}
-							fr := c54fragSpec{hdrSep: k != 0, k: k, eofWith: k == 1000}
-							be := mkBackend(200, fm, k, nil, body, fr)
-							runCase("D", []*c54req{{method: "GET", proto: "1.1", ae: both, rule: ru, nobuf: nobuf, bodyID: fmt.Sprintf("%c%d", kind, n), backend: be}})
-						}
-					}
-				}
-			}
-		}
-	}
 
 	// ---- family E: several requests on one keep-alive connection (every sequence over a small
 	//      alphabet of request kinds): each response must be readable after the previous one.
@@ -1300,13 +1084,250 @@ func TestVerifC54(t *testing.T) {
 		rec(0, n)
 	}
 
+	// ---- family A: negotiation — Accept-Encoding x rule x backend Content-Encoding x status x
+	//      backend framing x method x client protocol x cluster, small fixed bodies. The axes
+	//      beside Accept-Encoding/rule/Content-Encoding are crossed with each other only for the
+	//      plain backend (no Content-Encoding) in the quick tier.
+	type stat struct {
+		status   int
+		framings []string
+	}
+	stats := []stat{
+		{200, []string{"cl", "chunked", "close"}},
+		{404, []string{"cl"}},
+		{206, []string{"chunked"}},
+		{204, []string{"none", "cl0"}},
+		{304, []string{"none", "clN"}},
+	}
+	protos := []string{"1.1", "1.0", "1.0ka"}
+	for _, ae := range c54aeAlphabet {
+		for _, ru := range []c54rule{gz, bro, none} {
+			for _, ce := range c54ceAlphabet {
+				for _, st := range stats {
+					for _, fm := range st.framings {
+						for _, method := range []string{"GET", "HEAD"} {
+							for _, proto := range protos {
+								for _, nobuf := range []bool{false, true} {
+									base := method == "GET" && proto == "1.1" && !nobuf
+									if !base && ce != nil && (!thorough || st.status != 200) {
+										continue
+									}
+									if st.status != 200 && nobuf {
+										continue
+									}
+									if !thorough && ru.cmd == "" && !base {
+										continue
+									}
+									for _, bk := range []struct {
+										id string
+										b  []byte
+									}{{"t100", text100}, {"z0", nil}} {
+										if bk.id == "z0" && (ce != nil || st.status != 200 || fm == "chunked") {
+											continue
+										}
+										be := mkBackend(st.status, fm, 0, ce, bk.b, whole)
+										runCase("A", []*c54req{{method: method, proto: proto, ae: ae, rule: ru, nobuf: nobuf, bodyID: bk.id, backend: be}})
+									}
+								}
+							}
+						}
+					}
+				}
+			}
+		}
+	}
+
+	// ---- family C: exhaustive small bodies over a 4-symbol alphabet x every composition of the
+	//      body into backend reads x EOF flavour (bodies are far below the smallest flush size:
+	//      the single-flush and the close-only paths).
+	maxLen := r.Pick(4, 5)
+	alpha := []byte{'a', 0x00, 0xff, '\n'}
+	var bodies [][]byte
+	var gen func(cur []byte)
+	gen = func(cur []byte) {
+		bodies = append(bodies, append([]byte(nil), cur...))
+		if len(cur) == maxLen {
+			return
+		}
+		for _, c := range alpha {
+			gen(append(cur, c))
+		}
+	}
+	gen(nil)
+	for _, body := range bodies {
+		n := len(body)
+		ncomp := 1
+		if n > 1 {
+			ncomp = 1 << uint(n-1)
+		}
+		for mask := 0; mask < ncomp; mask++ {
+			// quick: longer bodies get every composition only when they are all 'a'
+			if !thorough && n > 3 && mask != 0 && mask != ncomp-1 && bytes.Count(body, []byte{'a'}) != n {
+				continue
+			}
+			sizes := []int{}
+			run := 1
+			for i := 0; i < n-1; i++ {
+				if mask&(1<<uint(i)) != 0 {
+					sizes = append(sizes, run)
+					run = 1
+				} else {
+					run++
+				}
+			}
+			for _, ru := range []c54rule{{"GZIP", -1, 64}, {"BROTLI", 5, 64}} {
+				for _, fm := range []string{"cl", "close"} {
+					for _, eofWith := range []bool{false, true} {
+						fr := c54fragSpec{hdrSep: mask&1 == 0, sizes: sizes, eofWith: eofWith}
+						be := mkBackend(200, fm, 0, nil, body, fr)
+						runCase("C", []*c54req{{method: "GET", proto: "1.1", ae: both, rule: ru, bodyID: "x" + fmt.Sprintf("%x", body), backend: be}})
+					}
+				}
+			}
+		}
+	}
+
+	// ---- family S: every split of bodies around the flush size into two (thorough: three)
+	//      backend reads — the read that straddles a flush boundary.
+	for _, ru := range []c54rule{{"GZIP", 1, 64}, {"BROTLI", 1, 64}} {
+		for _, n := range []int{63, 64, 65, 127, 128, 129, 130} {
+			body := c54body('t', n)
+			for a := 1; a < n; a++ {
+				for b := 0; a+b < n; b++ {
+					if b > 0 && (!thorough || (n != 64 && n != 65 && n != 128)) {
+						break
+					}
+					sizes := []int{a}
+					if b > 0 {
+						sizes = []int{a, b}
+					}
+					for _, fm := range []string{"cl", "close"} {
+						if b > 0 && fm == "close" {
+							continue
+						}
+						fr := c54fragSpec{hdrSep: true, sizes: sizes, eofWith: a%2 == 0}
+						be := mkBackend(200, fm, 0, nil, body, fr)
+						runCase("S", []*c54req{{method: "GET", proto: "1.1", ae: both, rule: ru, bodyID: fmt.Sprintf("t%d", n), backend: be}})
+					}
+				}
+			}
+		}
+	}
+
+	// ---- family B: body length x content x backend chunking x level x flush size.
+	contents := []byte{'t', 'z', 'r', 'g'}
+	framings := []string{"cl", "chunked", "close", "h10"}
+	for _, ru := range c54allRules() {
+		f := ru.f
+		if !thorough {
+			// quick: every level at flush 64; six levels at 4096; two levels at the other sizes
+			lv := (ru.cmd == "GZIP" && (ru.q == -1 || ru.q == 0)) || (ru.cmd == "BROTLI" && (ru.q == 0 || ru.q == 5))
+			lv2 := lv || (ru.cmd == "GZIP" && ru.q == -2) || (ru.cmd == "BROTLI" && ru.q == 11)
+			if !(f == 64 || (f == 4096 && lv2) || lv) {
+				continue
+			}
+		}
+		lens := []int{0, 1, 2, f - 1, f, f + 1, 2*f - 1, 2 * f, 2*f + 1, 3*f + 5}
+		if thorough {
+			lens = append(lens, f/2, 3*f, 4*f+1, 8*f)
+		}
+		for _, n := range lens {
+			for _, kind := range contents {
+				body := c54body(kind, n)
+				bodyID := fmt.Sprintf("%c%d", kind, n)
+				ks := []int{0, 1, f - 1, f, f + 1, 2*f + 1}
+				if n > 2*f+1 && f > 512 {
+					ks[1] = 7
+				}
+				for _, k := range ks {
+					if k > n && k != 0 {
+						continue
+					}
+					main := k == 0 || k == f
+					if kind == 'g' && (k != 0 || n > f+1) {
+						continue
+					}
+					if !thorough && kind != 't' && !main {
+						continue
+					}
+					for _, fm := range framings {
+						if !thorough && fm == "h10" {
+							continue
+						}
+						for _, eofWith := range []bool{false, true} {
+							if eofWith && !main && !thorough {
+								continue
+							}
+							for _, nobuf := range []bool{false, true} {
+								if nobuf && (!main || (!thorough && kind != 't')) {
+									continue
+								}
+								fr := c54fragSpec{hdrSep: k != 0, k: k, eofWith: eofWith}
+								be := mkBackend(200, fm, k, nil, body, fr)
+								runCase("B", []*c54req{{method: "GET", proto: "1.1", ae: both, rule: ru, nobuf: nobuf, bodyID: bodyID, backend: be}})
+							}
+						}
+					}
+				}
+			}
+		}
+	}
+
+	// ---- family D: large bodies (70 000 bytes and around the 32 KiB copy buffer).
+	bigLens := []int{32767, 32768, 32769, 70000}
+	for _, ru := range c54allRules() {
+		if ru.f != 64 && ru.f != 4096 && ru.f != 4095 {
+			continue
+		}
+		if ru.f == 4095 && !thorough {
+			continue
+		}
+		if !thorough {
+			if ru.cmd == "GZIP" && ru.q != -2 && ru.q != -1 && ru.q != 0 && ru.q != 1 && ru.q != 9 {
+				continue
+			}
+			if ru.cmd == "BROTLI" && ru.q != 0 && ru.q != 4 && ru.q != 5 && ru.q != 9 && ru.q != 11 {
+				continue
+			}
+		}
+		for _, n := range bigLens {
+			if !thorough && n != 70000 && ru.f != 4096 {
+				continue
+			}
+			for _, kind := range []byte{'z', 't', 'r'} {
+				if ru.cmd == "BROTLI" && ru.q >= 10 && kind != 't' && !thorough {
+					continue
+				}
+				body := c54body(kind, n)
+				for _, k := range []int{0, 1000, 4096, 32769} {
+					if !thorough && (k == 1000 || k == 32769) && kind != 't' {
+						continue
+					}
+					for _, fm := range []string{"cl", "chunked", "close"} {
+						if !thorough && fm == "close" && kind != 't' {
+							continue
+						}
+						for _, nobuf := range []bool{false, true} {
+							if nobuf && k != 4096 {
+								continue
+							}
+							fr := c54fragSpec{hdrSep: k != 0, k: k, eofWith: k == 1000}
+							be := mkBackend(200, fm, k, nil, body, fr)
+							runCase("D", []*c54req{{method: "GET", proto: "1.1", ae: both, rule: ru, nobuf: nobuf, bodyID: fmt.Sprintf("%c%d", kind, n), backend: be}})
+						}
+					}
+				}
+			}
+		}
+	}
+
 	r.Set("bounds", fmt.Sprintf("AE values %d, backend Content-Encoding values %d, rules %d (gzip -2..9, brotli 0..11 x flush %v), small bodies <=%d over 4 symbols x all read compositions, bodies up to 70000 bytes, pipelines of <=%d requests over %d kinds",
 		len(c54aeAlphabet), len(c54ceAlphabet), len(c54allRules()), c54flushSizes, maxLen, depth, len(kinds)))
 	r.Set("cases_enumerated", idx)
+	r.Set("panics", nPanics)
 	fs := map[string]string{}
-	for k, n := range famN {
-		fs[k] = fmt.Sprintf("%d cases, %.1fs", n, famT[k].Seconds())
+	for k, e := range famE {
+		fs[k] = fmt.Sprintf("%d cases run by this shard, %.1fs (enumerated by all shards: %d)", famN[k], famT[k].Seconds(), e)
 	}
 	r.Set("family_cost", fs)
-	r.Set("panics", nPanics)
 }
